@@ -1,12 +1,12 @@
 /-
-  C15 — hand-written model of the callbacks `solve_ode_ivp` / `solve_ode_bvp` hand to SciPy and of the
-  callable they return, assembled from the generated pieces (`Gen/Ode.lean`) and `Model/Ode.lean`.
-  Tied to the implementation by correspondence: the harness replaces `grid.ode.solve_ivp` /
-  `grid.ode.solve_bvp` by a recorder, captures `func`, `bc`, the span/mesh and the initial data the
-  library passes, evaluates them on random arguments and compares with these definitions.
+  C15 — notation over the generated text (`Gen/Ode.lean`).
 
-  A transform enters only through the *values* the code reads from it:
-  `tf.transform`, `tf.inverse`, `tf.deriv`, `tf.deriv2`, `tf.deriv3` (functions `K → K`).
+  Until round 1 this file held a hand-written model of the callbacks `solve_ode_ivp` / `solve_ode_bvp` hand to SciPy,
+  of the initial-data mapping and of the returned callable.  All of that is now *generated* from the source
+  (`ivpFunc`, `bvpFunc`, `bvpBc`, `ivpTransformSetup`, `solveOdeIvp`, `solveOdeBvp`,
+  `transformSolutionToOriginalDomain`, `evaluateCoeffsOnPoints` in `Gen/Ode.lean`); what remains is an abbreviation
+  for the call shape both `solve_ode_ivp` and `_transform_solution_to_original_domain` use for the derivative matrix,
+  and the reference implementation of `scipy.linalg.solve` used by the driver.
   No Mathlib import.
 -/
 import GridVerif.Model.Ode
@@ -17,48 +17,12 @@ open GridVerif.Gen.Ode
 
 variable {K : Type} [Add K] [Sub K] [Mul K] [Div K] [Neg K] [NatCast K]
 
-/-- What `ode.py` reads from a `BaseTransform` object. -/
-structure TransformFns (K : Type) where
-  transform : K → K
-  inverse : K → K
-  deriv : K → K
-  deriv2 : K → K
-  deriv3 : K → K
+/-- `_derivative_transformation_matrix([tf.deriv, tf.deriv2, tf.deriv3], x, n)` — reducible: it *is* the expression the
+generated text contains. -/
+abbrev derivMatrixAt (tf : TransformFns K) (x : K) (n : Nat) : Mat K :=
+  derivativeTransformationMatrix [tf.deriv, tf.deriv2, tf.deriv3] x n
 
-/-- `_transform_ode_from_rtransform(coeffs, tf, x)` at one point `x` of the original variable. -/
-def transformOdeAt (coeffs : List (Coeff K)) (tf : TransformFns K) (x : K) : Option (List K) :=
-  coeffB (evalCoeffs x coeffs) (tf.deriv x) (tf.deriv2 x) (tf.deriv3 x)
-
-/-- `func(x, y)` of `solve_ode_ivp` / `solve_ode_bvp`, branch `transform is None`, one point. -/
-def odeFuncDirect (coeffs : List (Coeff K)) (fx : K → K) (x : K) (y : List K) : Option (List K) := do
-  let dy ← rearrangeToExplicitOde y (evalCoeffs x coeffs) (fx x)
-  pure (firstOrderRhs y dy)
-
-/-- `func(x, y)`, transform branch, one point: the solver's independent variable is `r = g(x)`;
-`orig_dom = transform.inverse(r)`; coefficients, transform derivatives and right-hand side are all
-evaluated at `orig_dom`. -/
-def odeFuncTransformed (coeffs : List (Coeff K)) (tf : TransformFns K) (fx : K → K) (r : K) (y : List K) :
-    Option (List K) := do
-  let orig_dom := tf.inverse r
-  let dy ← transformAndRearrange (transformOdeAt coeffs tf) fx orig_dom y
-  pure (firstOrderRhs y dy)
-
-/-- The matrix `_derivative_transformation_matrix([tf.deriv, tf.deriv2, tf.deriv3], x, n)`. -/
-def derivMatrixAt (tf : TransformFns K) (x : K) (n : Nat) : Mat K :=
-  derivMatrix (bell (seq3 (tf.deriv x) (tf.deriv2 x) (tf.deriv3 x))) n
-
-/-- What `solve_ode_ivp` passes to `scipy.integrate.solve_ivp` in the transform branch:
-`(t_span, y0)` = (`transform(x_span)`, mapped initial data); `order = len(y0)`. -/
-def ivpSetup (tf : TransformFns K) (x0 x1 : K) (y0 : List K) : Option ((K × K) × List K) := do
-  let y ← ivpInitial (derivMatrixAt tf x0 (y0.length - 1)) y0
-  pure ((tf.transform x0, tf.transform x1), y)
-
-/-- The callable returned in the transform branch, one point `x` of the original variable:
-`sol` is the dense output of the integrator (a function of `r`). -/
-def returnedCallable (tf : TransformFns K) (order : Nat) (noDerivs : Bool) (sol : K → List K) (x : K) :
-    Option (List K) :=
-  let interpolated := sol (tf.transform x)
-  if noDerivs then (backTransformNoDerivs interpolated).map fun v => [v]
-  else backTransform (derivMatrixAt tf x (order - 1)) interpolated
+/-- A result object of the integrators with `status = 0` and the given dense output. -/
+def okResult (sol : K → List K) : SolveResult K := ⟨0, sol⟩
 
 end GridVerif.Ode
